@@ -6,7 +6,7 @@ VERIF = os.path.dirname(os.path.dirname(os.path.abspath(__file__)))
 ALL = ["C%02d" % i for i in range(1, 19)]
 
 # checks the lead has integrated and run green on /repo (fragments of others are ignored until then)
-ENABLED = ["C02", "C03", "C05", "C06", "C07", "C08", "C09", "C11", "C12", "C13", "C14", "C15", "C16", "C18"]
+ENABLED = ["C%02d" % i for i in range(1, 19)]
 
 CHECKS = {
  "C03": dict(
